@@ -34,8 +34,14 @@ MODE = _os.environ.get('C06D_MODE', 'float')
 NUM = float if MODE == 'float' else int
 DMAX = 1000000
 BMAX = 1000
-# setup_dates: the date strings that may follow the last '_' of a taxon name (symbolic index per taxon)
-NAME_VALUES = ['0', '1.5', '2000'] if _os.environ.get('C06D_TIER', 'quick') == 'quick' else ['0', '0.0', '1.5', '2000', '2000.25']
+
+
+def name_values(tier):
+    """setup_dates: the date strings that may follow the last '_' of a taxon name (symbolic index per taxon)"""
+    return ['0', '1.5', '2000'] if tier == 'quick' else ['0', '0.0', '1.5', '2000', '2000.25']
+
+
+NAME_VALUES = name_values(_os.environ.get('C06D_TIER', 'quick'))
 KLO = int(_os.environ.get('C06D_KLO', '0'))
 KHI = int(_os.environ.get('C06D_KHI', '1000000'))
 TIER = _os.environ.get('C06D_TIER', 'quick')
@@ -94,8 +100,12 @@ def newick_of(t, names=None, lengths=None):
 def selection(n, tier):
     """indices into ordered_trees(n) that form the range of the symbolic choice k"""
     ts = ordered_trees(n)
-    if n <= 3 or tier == 'thorough':
+    if n <= 3 or tier == 'all':
         return list(range(len(ts)))
+    if tier == 'thorough':
+        # n = 4: every one of the 4! tip orders (ordered shape rotating with the order) plus all 5 ordered
+        # shapes for the Taxa order and for the reversed order: 32 of the 120 pairs
+        return sorted(set([5 * p + (p % 5) for p in range(24)] + list(range(5)) + list(range(115, 120))))
     # quick, n = 4: Taxa order and 7 other tip orders spread over the 5 ordered shapes
     return [0, 7, 31, 44, 58, 73, 96, 119]
 
